@@ -1,5 +1,7 @@
 (* C09 driver.  argv[1] = case file, optional argv[2] = the implementation's output for the same cases.
-   Case line:  <P|C><G|U|V><S|N> <sentinel> <seq> <seq> ...   with <seq> = "-" (empty) or "k,k,k".
+   Case line:  <P|C><G|U|V><S|N>[:<elem>:<cmp>:<via>] <sentinel> <seq> <seq> ...   with <seq> = "-" (empty) or "k,k,k".
+   <elem> and <via> (element size, direct class / switch alias / moved) do not exist in the model; <cmp> = gt | st- selects
+   the instances with the comparator reversed (coq/C09/Instances.v), lt | st+ | df the ones with N.ltb.
    V = unguarded class driven outside its key precondition (keys may exceed the sentinel; the caller consults the tree
    only while some current key beats the sentinel): model = run_gN, checker = check_gN.
    Output line: "<model trace>" and, when argv[2] is given, " ; chk=<ok|BAD|PARSE>" = verdict of the
@@ -30,12 +32,17 @@ let () =
         | Some c -> (try Some (input_line c) with End_of_file -> Some "<missing>")
         | None -> None in
       match List.filter (fun s -> s <> "") (String.split_on_char ' ' line) with
-      | vs :: sent :: seqs when String.length vs = 3 ->
+      | head :: sent :: seqs when String.length head >= 3 && (String.length head = 3 || head.[3] = ':') ->
+        let parts = String.split_on_char ':' head in
+        let vs = List.hd parts in
+        let rev = (match parts with [_; _; c; _] -> c = "gt" || c = "st-" | _ -> false) in
         let v = parse_variant vs in
         let seqs = List.map parse_seq seqs in
         let general = (vs.[1] = 'V') in
         let sentn = n_of_int (int_of_string sent) in
-        let tr = if general then run_gN v sentn seqs else run_N v sentn seqs in
+        let tr =
+          if general then (if rev then run_gNgt v sentn seqs else run_gN v sentn seqs)
+          else (if rev then run_Ngt v sentn seqs else run_N v sentn seqs) in
         let b = Buffer.create 64 in
         Buffer.add_string b (String.concat " " (List.map show_src tr));
         (match il with
@@ -44,7 +51,8 @@ let () =
            let verdict =
              try
                let t = List.map parse_src (List.filter (fun s -> s <> "") (String.split_on_char ' ' l)) in
-               if (if general then check_gN v sentn seqs t else check_N v seqs t) then "ok" else "BAD"
+               if (if general then (if rev then check_gNgt v sentn seqs t else check_gN v sentn seqs t)
+                   else (if rev then check_Ngt v seqs t else check_N v seqs t)) then "ok" else "BAD"
              with _ -> "PARSE" in
            Buffer.add_string b (" ; chk=" ^ verdict));
         print_endline (Buffer.contents b)
